@@ -756,7 +756,7 @@ def mov(ir, instr, a, b):
 
 
 def movt(ir, instr, a, b):
-    r = a | b << ExprInt(16, 32)
+    r = (a & ExprInt(0xffff, 32)) | b << ExprInt(16, 32)
     e = [ExprAssign(a, r)]
     dst = get_dst(a)
     if dst is not None:
